@@ -12,6 +12,7 @@
    in possibly different orders); a returned value is copied iff it *is* a graph input (the code
    looks its ONNX name up as a Python variable); while + trailing break continues iff the loop
    condition holds and the break condition does not (the code drops the loop condition);
+   a branch or loop body never lists one value twice as output (the code does when two variables alias it);
    a loop without state, and a loop with an else clause, are refused.
    No proofs in this file. *)
 From Coq Require Import List String ZArith NArith Bool Arith DecimalString.
@@ -364,8 +365,15 @@ Section Translate.
   Definition identity (v r : vname) : node := node1 "Identity" [Some v] r [].
 
   (* Tail of _translate_block: one output per live_def; `acc` = nodes of the branch graph so far
-     (IRFunction.assigned_names is computed from them).  Runs under `capture`: nothing is emitted. *)
-  Fixpoint block_outputs (sc_b : scopes) (live_defs : list string) (acc : list node) : M (list vname * list node) :=
+     (IRFunction.assigned_names is computed from them), `prev` = outputs listed so far.  A value is copied when it
+     was not produced inside this graph -- and (repaired behaviour) when it is already listed as an output: two
+     variables may alias one value (`w = b`), and a graph must not list an output twice.
+     Runs under `capture`: nothing is emitted. *)
+  Definition keep_as_output (v : vname) (acc : list node) (prev : list vname) : bool :=
+    mem v (defs_of acc) && (legacy || negb (mem v prev)).
+
+  Fixpoint block_outputs (sc_b : scopes) (live_defs : list string) (acc : list node) (prev : list vname)
+    : M (list vname * list node) :=
     match live_defs with
     | [] => ret ([], acc)
     | pv :: t =>
@@ -373,34 +381,36 @@ Section Translate.
       | Some b =>
         vn <- capture (to_onnx_var b pv) ;;
         let acc1 := (acc ++ snd vn)%list in
-        if mem (fst vn) (defs_of acc1) then
-          r <- block_outputs sc_b t acc1 ;; ret (fst vn :: fst r, snd r)
+        if keep_as_output (fst vn) acc1 prev then
+          r <- block_outputs sc_b t acc1 (prev ++ [fst vn])%list ;; ret (fst vn :: fst r, snd r)
         else
           c <- uniq pv ;;
-          r <- block_outputs sc_b t (acc1 ++ [identity (fst vn) c])%list ;; ret (c :: fst r, snd r)
+          r <- block_outputs sc_b t (acc1 ++ [identity (fst vn) c])%list (prev ++ [c])%list ;; ret (c :: fst r, snd r)
       | None =>
         match scopes_find pv (tl sc_b) with
         | None => fail                              (* not assigned a value along a conditional branch *)
         | Some b =>
           vn <- capture (to_onnx_var b pv) ;;
           c <- uniq pv ;;
-          r <- block_outputs sc_b t (acc ++ snd vn ++ [identity (fst vn) c])%list ;; ret (c :: fst r, snd r)
+          r <- block_outputs sc_b t (acc ++ snd vn ++ [identity (fst vn) c])%list (prev ++ [c])%list ;; ret (c :: fst r, snd r)
         end
       end
     end.
 
-  (* Tail of the loop body: the value of each state variable, copied when not produced inside the body *)
-  Fixpoint loop_outputs (sc_b : scopes) (state : list string) (acc : list node) : M (list vname * list node) :=
+  (* Tail of the loop body: the value of each state variable, copied when not produced inside the body
+     (or, repaired behaviour, when already listed) *)
+  Fixpoint loop_outputs (sc_b : scopes) (state : list string) (acc : list node) (prev : list vname)
+    : M (list vname * list node) :=
     match state with
     | [] => ret ([], acc)
     | pv :: t =>
       vn <- capture (py_var sc_b pv) ;;
       let acc1 := (acc ++ snd vn)%list in
-      if mem (fst vn) (defs_of acc1) then
-        r <- loop_outputs sc_b t acc1 ;; ret (fst vn :: fst r, snd r)
+      if keep_as_output (fst vn) acc1 prev then
+        r <- loop_outputs sc_b t acc1 (prev ++ [fst vn])%list ;; ret (fst vn :: fst r, snd r)
       else
         c <- uniq pv ;;
-        r <- loop_outputs sc_b t (acc1 ++ [identity (fst vn) c])%list ;; ret (c :: fst r, snd r)
+        r <- loop_outputs sc_b t (acc1 ++ [identity (fst vn) c])%list (prev ++ [c])%list ;; ret (c :: fst r, snd r)
     end.
 
   (* _translate_return_stmt *)
@@ -446,10 +456,10 @@ Section Translate.
             test <- tr_expr sc (Some "cond") c ;;
             (* each branch in a fresh scope *)
             g_then <- (r <- capture (tr_stmts fu false t lo_s ([] :: sc) []) ;;
-                       o <- block_outputs (fst (fst r)) live_defs (snd r) ;;
+                       o <- block_outputs (fst (fst r)) live_defs (snd r) [] ;;
                        ret (Graph [] [] (snd o) (fst o))) ;;
             g_else <- (r <- capture (tr_stmts fu false f lo_s ([] :: sc) []) ;;
-                       o <- block_outputs (fst (fst r)) live_defs (snd r) ;;
+                       o <- block_outputs (fst (fst r)) live_defs (snd r) [] ;;
                        ret (Graph [] [] (snd o) (fst o))) ;;
             renamed <- mapM uniq live_defs ;;
             guard (negb (is_nil renamed)) ;;;
@@ -526,7 +536,7 @@ Section Translate.
                       | None, None =>
                         co <- uniq "cond_out" ;; emit (identity cond_param co) ;;; ret co
                       end) ;;
-          o <- loop_outputs sc_b state (ns0 ++ snd cnodes)%list ;;
+          o <- loop_outputs sc_b state (ns0 ++ snd cnodes)%list [fst cnodes] ;;
           let body_g := Graph (lv :: cond_param :: ps) [] (snd o) (fst cnodes :: fst o) in
           ins <- mapM (py_var sc) state ;;
           (* the code listed the state a second time for the outputs (a different set object) *)
